@@ -378,11 +378,43 @@ def strace_run(res, wd, case):
     res.count('renames_onto_output_observed', renames)
 
 
+def alias_run(res, wd, case, r):
+    """The output path names the input file through another spelling (a
+    symbolic link to its directory): whatever ddSMT does - refuse, or run and
+    be interrupted - it has not written to the input file."""
+    text, rules, opts, desc = case
+    os.makedirs(wd, exist_ok=True)
+    os.symlink(wd, os.path.join(wd, 'alias'))
+    after = r.choice([None, 3, 8])
+    run = realrun.run_ddsmt(wd, text, rules, opts=opts,
+                            infile_name='in.smt2',
+                            outfile_name='alias/in.smt2',
+                            signal_after_tests=after, timeout=60)
+    res.count('evaluations')
+    res.count('alias_runs')
+    if run.timed_out:
+        res.count('runs_watchdog')
+        return
+    if not run.infile_unchanged:
+        w = dict(desc)
+        w.update({'opts': opts, 'sigint_after': after,
+                  'stderr_tail': run.stderr[-400:]})
+        res.violation('input-file-modified:output-path-is-an-alias',
+                      'the output path reaches the input file through a '
+                      'symbolic link to its directory, and the input file '
+                      'was overwritten', w)
+
+
 def shard(args):
     res = common.ShardResult()
     r = common.rng('c06', args['shard'])
     base = common.scratch_dir('c06')
     try:
+        if args['shard'] < 3:
+            case = make_case(r)
+            wd = os.path.join(base, 'alias')
+            alias_run(res, wd, case, r)
+            shutil.rmtree(wd, ignore_errors=True)
         for i in range(args['n']):
             case = make_case(r, big=(i % 4 == 3))
             wd = os.path.join(base, f'snap{i}')
